@@ -331,7 +331,7 @@ var c13hist = &h.Campaign[CacheHistCase]{
 				o.Redeclare = rapid.SampledFrom([][]string{{"d1"}, {"d2"}, {"d1", "d2"}, {"d2", "u1"}, {"u2"}}).Draw(rt, "newdecl")
 			}
 			return o
-		}), 1, 25).Draw(rt, "ops")
+		}), h.LenBias(rt, 1, 25), 25).Draw(rt, "ops")
 		c.ExpiryS = rapid.SampledFrom([]int{0, 0, 10}).Draw(rt, "expiry")
 		if rapid.IntRange(0, 3).Draw(rt, "faulty") == 0 {
 			c.FailRead = rapid.Bool().Draw(rt, "failread")
